@@ -59,6 +59,7 @@ func WorkerMain(env *Env, eng Engine) int {
 	res := NewResult(env.Property, env.Worker)
 	known := map[string]*KnownHit{}
 	seen := map[string]bool{}
+	suspects := map[string]*Violation{}
 	for run := env.Worker; ; run += env.Workers {
 		if env.Runs > 0 && run >= env.Runs {
 			break
@@ -86,6 +87,19 @@ func WorkerMain(env *Env, eng Engine) int {
 			res.Count("violations_repeated", 1)
 			continue
 		}
+		if cf, ok := eng.(Confirmer); ok && v.Case != nil && v.Case.ReplayExact && !cf.Confirm(env, v.Case) {
+			// the violation does not recur when the same case runs again with the
+			// process's pools flushed: it depended on something an earlier run of
+			// this worker left behind in the code under test (a sync.Pool, a
+			// package-level variable).  Keep looking for a self-contained case of
+			// the same signature; if none turns up the suspect is handed to the
+			// driver as it is (whose fresh-process replay decides).
+			res.Count("violations_not_confirmed_in_isolation", 1)
+			if suspects[v.Signature] == nil {
+				suspects[v.Signature] = v
+			}
+			continue
+		}
 		seen[v.Signature] = true
 		if v.Case != nil && os.Getenv("VERIF_NOMIN") == "" {
 			mc := eng.Minimise(env, v.Case)
@@ -99,6 +113,16 @@ func WorkerMain(env *Env, eng Engine) int {
 			res.Notes = append(res.Notes, "stopped after 4 distinct violation signatures")
 			break
 		}
+	}
+	var ss []string
+	for s := range suspects {
+		if !seen[s] {
+			ss = append(ss, s)
+		}
+	}
+	sort.Strings(ss)
+	for _, s := range ss {
+		res.Violations = append(res.Violations, *suspects[s])
 	}
 	var ks []string
 	for s := range known {
@@ -210,6 +234,12 @@ func MinimiseTape(tape []uint32, test func([]uint32) bool) []uint32 {
 		tape = tape[:len(tape)-1]
 	}
 	return tape
+}
+
+// Confirmer is implemented by engines that can re-run a case in isolation
+// from whatever earlier runs left in process-global state of the code under test.
+type Confirmer interface {
+	Confirm(env *Env, c *Case) bool
 }
 
 // ---- hang watchdog ----------------------------------------------------------
